@@ -1,3 +1,239 @@
-/- C15: property theorems (none yet). -/
+/-
+C15 — WASI calls are safe for any argument values.
+
+Theorems about the footprint models of `Wz.Model.Wasi` (transcriptions of imports/wasi_snapshot_preview1/*.go
+in wrap-around arithmetic; tie B: `hc15` compares errno, exact byte diff and descriptor table of every modelled
+function with the real code on boundary grids; tie A: errno/event constants and `MemoryInstance.hasSize` are
+regenerated) and of `Wz.Model.DescTable` (internal/descriptor/table.go).
+
+Full statement of the property over the model, for reference:
+  for every function fn, argument tuple a, memory m, descriptor table fds, host configuration h:
+    (call fn a).err ≠ panic                                           (no_host_index_oob)
+    ∧ every region in (call fn a).acc lies inside [0, m.size)          (footprint_in_bounds)
+    ∧ every write of (call fn a).writes lies inside designated fn a    (writes_within_designated)
+    ∧ the table invariant is preserved                                 (table_inv)
+    ∧ (call fn a).alloc ≤ c · m.size + c'                              (table_space_bounded)
+Proved below: no_host_index_oob for poll_oneoff (false on the pinned tree: `poll_overflow_witness`, F15; full for the
+repaired variant; partial for the as-is variant), args_get/environ_get and the loop-free functions;
+footprint_in_bounds for poll_oneoff and the loop-free functions; the shape part of table_inv over all
+histories; table_space_bounded_partial (histories without InsertAt) and the witness that InsertAt is unbounded
+(`renumber_alloc_witness`, F16).  Not proved (monitored by the harness only): writes_within_designated as a
+theorem, footprint_in_bounds of the iovec walks, the bit⇔item part of table_inv.
+-/
+import Wz.Proofs.C15_PollLoop
+import Wz.Proofs.C15_Table
+
 namespace Wz.C15
+open Wz.Model Wz.Model.Wasi Wz.Model.DescTable Wz.Gen.Wasi
+
+/-- every region the call was granted by the memory API lies inside the memory -/
+def AccInBounds (m : Mem) (r : Res) : Prop := ∀ x ∈ r.acc, x.1 + x.2 ≤ m.size
+
+/-- a one-page memory whose content is all zero (for witnesses and non-vacuity examples) -/
+def zeroPage : Mem := { size := 65536, data := #[] }
+/-- descriptor table with stdin, stdout, stderr -/
+def stdio : Fds := (insertAt (insertAt (insertAt empty Kind.stdin 0).1 Kind.stdout 1).1 Kind.stderr 2).1
+
+/-! ## the memory guard -/
+
+/-- `api.Memory` grants an access exactly when it lies inside the buffer (regenerated `hasSize`). -/
+theorem mem_guard_iff (m : Mem) (off cnt : Nat) (ho : off < 4294967296) (hc : cnt < 4294967296)
+    (hs : m.size < 9223372036854775808) : m.has off cnt = true ↔ off + cnt ≤ m.size :=
+  has_iff m off cnt ho hc hs
+
+example : zeroPage.has 65532 4 = true ∧ zeroPage.has 65533 4 = false := by decide  -- test (samples)
+
+/-! ## poll_oneoff -/
+
+/-- F15: on the pinned tree `nsubscriptions = 2^28` makes `nsubscriptions*48` wrap to 0; both bounds checks pass
+on empty buffers and the first loop iteration indexes `inBuf[8]` out of range. -/
+theorem poll_overflow_witness :
+    (pollOneoff false stdio zeroPage 0 1024 268435456 2048).err = Err.panic := by decide
+
+/-- the same call is rejected with EFAULT by the repaired variant (test, sample) -/
+example : (pollOneoff true stdio zeroPage 0 1024 268435456 2048).err = Err.errno ErrnoFault := by decide
+
+/-- no_host_index_oob for poll_oneoff, repaired variant: for ALL argument values, memories and tables. -/
+theorem poll_no_host_index_oob (fds : Fds) (m : Mem) (inp out n res : Nat) :
+    (pollOneoff true fds m inp out n res).err ≠ Err.panic := by
+  by_cases h : n * 48 > 4294967295
+  · unfold pollOneoff
+    by_cases h0 : n = 0
+    · simp [h0, einval]
+    · simp [h0, h, efault]
+  · exact pollOneoff_no_panic_of_exact true fds m inp out n res (by omega)
+
+/-- no_host_index_oob for poll_oneoff as it is on the pinned tree — partial: only when the byte size of the
+subscriptions does not wrap (`n*48 < 2^32`); `poll_overflow_witness` shows the rest is false. -/
+theorem poll_no_host_index_oob_partial (fds : Fds) (m : Mem) (inp out n res : Nat) (h : n * 48 < 4294967296) :
+    (pollOneoff false fds m inp out n res).err ≠ Err.panic :=
+  pollOneoff_no_panic_of_exact false fds m inp out n res h
+
+example : (3 : Nat) * 48 < 4294967296 := by decide  -- the hypothesis is met by ordinary calls
+
+theorem pollAfter_acc (fds : Fds) (inp inLen out outLen n res : Nat) (acc : List (Nat × Nat)) (s0 : PollSt) :
+    (pollAfter fds inp inLen out outLen n res acc s0).acc = acc := by
+  unfold pollAfter
+  repeat' split
+  all_goals rfl
+
+theorem in_of_has (m m' : Mem) (off cnt : Nat) (h : ¬ (!m'.has off cnt) = true) (hsz : m'.size = m.size)
+    (ho : off < 4294967296) (hc : cnt < 4294967296) (hs : m.size < 9223372036854775808) : off + cnt ≤ m.size := by
+  have h' : m'.has off cnt = true := by simpa using h
+  have := (has_iff m' off cnt ho hc (by omega)).1 h'
+  omega
+
+/-- footprint_in_bounds for poll_oneoff, both variants: the three buffers are inside the memory (or EFAULT). -/
+theorem poll_footprint_in_bounds (fixed : Bool) (fds : Fds) (m : Mem) (inp out n res : Nat)
+    (hi : inp < 4294967296) (ho : out < 4294967296) (hr : res < 4294967296) (hs : m.size < 9223372036854775808) :
+    AccInBounds m (pollOneoff fixed fds m inp out n res) := by
+  have w1 : w32 (n * 48) < 4294967296 := by unfold w32; omega
+  have w2 : w32 (n * 32) < 4294967296 := by unfold w32; omega
+  unfold AccInBounds pollOneoff
+  intro x hx
+  dsimp only at hx
+  repeat' split at hx
+  all_goals simp only [pollAfter_acc, List.mem_cons, List.not_mem_nil, or_false] at hx
+  all_goals first
+    | (rcases hx with h | h | h <;> subst h <;> dsimp only <;> first
+        | exact in_of_has m _ _ _ (by assumption) rfl hi w1 hs
+        | exact in_of_has m _ _ _ (by assumption) rfl ho w2 hs
+        | exact in_of_has m _ _ _ (by assumption) rfl hr (by decide) hs)
+    | (rcases hx with h | h <;> subst h <;> dsimp only <;> first
+        | exact in_of_has m _ _ _ (by assumption) rfl hi w1 hs
+        | exact in_of_has m _ _ _ (by assumption) rfl ho w2 hs)
+    | (subst hx; dsimp only; exact in_of_has m _ _ _ (by assumption) rfl hi w1 hs)
+
+example : AccInBounds zeroPage (pollOneoff false stdio zeroPage 1024 4096 3 2048) :=
+  poll_footprint_in_bounds false stdio zeroPage 1024 4096 3 2048 (by decide) (by decide) (by decide) (by decide)
+
+/-! ## loop-free functions -/
+
+theorem writeU64_in_bounds (m : Mem) (p v : Nat) (hp : p < 4294967296) (hs : m.size < 9223372036854775808) :
+    AccInBounds m (writeU64 m p v) := by
+  unfold AccInBounds writeU64
+  intro x hx
+  split at hx
+  · simp at hx
+  · simp only [List.mem_cons, List.not_mem_nil, or_false] at hx
+    subst hx
+    dsimp only
+    exact in_of_has m _ _ _ (by assumption) rfl hp (by decide) hs
+
+/-- footprint_in_bounds: clock_res_get, clock_time_get, fd_prestat_get (one 8-byte result). -/
+theorem clock_footprint_in_bounds (h : Host) (m : Mem) (id res : Nat) (hr : res < 4294967296)
+    (hs : m.size < 9223372036854775808) :
+    AccInBounds m (clockResGet h m id res) ∧ AccInBounds m (clockTimeGet h m id res) := by
+  constructor
+  · unfold clockResGet
+    repeat' split
+    all_goals first
+      | exact writeU64_in_bounds m res _ hr hs
+      | (intro x hx; simp at hx)
+  · unfold clockTimeGet
+    repeat' split
+    all_goals first
+      | exact writeU64_in_bounds m res _ hr hs
+      | (intro x hx; simp at hx)
+
+/-- footprint_in_bounds: args_sizes_get / environ_sizes_get. -/
+theorem sizes_footprint_in_bounds (m : Mem) (p1 v1 p2 v2 : Nat) (h1 : p1 < 4294967296) (h2 : p2 < 4294967296)
+    (hs : m.size < 9223372036854775808) : AccInBounds m (write2xU32 m p1 v1 p2 v2) := by
+  unfold AccInBounds write2xU32
+  intro x hx
+  dsimp only at hx
+  repeat' split at hx
+  all_goals simp only [List.mem_cons, List.not_mem_nil, or_false] at hx
+  all_goals first
+    | (rcases hx with h | h <;> subst h <;> dsimp only <;> first
+        | exact in_of_has m _ _ _ (by assumption) rfl h1 (by decide) hs
+        | exact in_of_has m _ _ _ (by assumption) rfl h2 (by decide) hs)
+    | (subst hx; dsimp only; exact in_of_has m _ _ _ (by assumption) rfl h1 (by decide) hs)
+
+/-- footprint_in_bounds: random_get (the whole requested buffer must be inside the memory). -/
+theorem random_footprint_in_bounds (m : Mem) (buf len : Nat) (hb : buf < 4294967296) (hl : len < 4294967296)
+    (hs : m.size < 9223372036854775808) : AccInBounds m (randomGet m buf len) := by
+  unfold AccInBounds randomGet
+  intro x hx
+  split at hx
+  · simp at hx
+  · simp only [List.mem_cons, List.not_mem_nil, or_false] at hx
+    subst hx
+    dsimp only
+    exact in_of_has m _ _ _ (by assumption) rfl hb hl hs
+
+/-- no_host_index_oob: fd_prestat_dir_name — `name[:pathLen]` is guarded by the ENAMETOOLONG check. -/
+theorem prestatDirName_no_host_index_oob (h : Host) (fds : Fds) (m : Mem) (fd path pathLen : Nat) :
+    (fdPrestatDirName h fds m fd path pathLen).err ≠ Err.panic := by
+  unfold fdPrestatDirName
+  split
+  · simp [ebadf]
+  · rename_i name _
+    split
+    · simp
+    · rename_i hlt
+      have : w32 name.length ≤ name.length := by unfold w32; omega
+      have hle : ¬ pathLen > name.length := by omega
+      simp only [hle, if_false]
+      split <;> simp [efault]
+
+/-- footprint_in_bounds: fd_prestat_dir_name. -/
+theorem prestatDirName_footprint_in_bounds (h : Host) (fds : Fds) (m : Mem) (fd path pathLen : Nat)
+    (hp : path < 4294967296) (hl : pathLen < 4294967296) (hs : m.size < 9223372036854775808) :
+    AccInBounds m (fdPrestatDirName h fds m fd path pathLen) := by
+  unfold AccInBounds fdPrestatDirName
+  intro x hx
+  repeat' split at hx
+  all_goals first
+    | (simp at hx; done)
+    | (simp only [List.mem_cons, List.not_mem_nil, or_false] at hx
+       subst hx
+       dsimp only
+       exact in_of_has m _ _ _ (by assumption) rfl hp hl hs)
+
+/-- footprint_in_bounds: fd_fdstat_get / fd_filestat_get (result buffer checked before the descriptor). -/
+theorem statLike_footprint_in_bounds (fds : Fds) (m : Mem) (fd res size : Nat) (hr : res < 4294967296)
+    (hz : size < 4294967296) (hs : m.size < 9223372036854775808) : AccInBounds m (statLike fds m fd res size) := by
+  unfold AccInBounds statLike
+  intro x hx
+  repeat' split at hx
+  all_goals first
+    | (simp at hx; done)
+    | (simp only [List.mem_cons, List.not_mem_nil, or_false] at hx
+       subst hx
+       dsimp only
+       exact in_of_has m _ _ _ (by assumption) rfl hr hz hs)
+
+example : AccInBounds zeroPage (randomGet zeroPage 65000 536) :=
+  random_footprint_in_bounds zeroPage 65000 536 (by decide) (by decide) (by decide)
+
+/-! ## descriptor table -/
+
+/-- table_inv, shape part (`len items = 64·len masks`), preserved by every operation for every key
+(negative, huge) over all histories. The bit⇔item part is checked on the real table after every operation by
+the harness (reflection), not proved. -/
+theorem table_inv_shape_partial {α} (ops : List (Op α)) : Shape (applyAll (empty : Table α) ops) :=
+  shape_applyAll ops empty shape_empty
+
+example : Shape (applyAll (empty : Table Nat) [.insert 1, .insertAt 2 (-5), .insertAt 3 200, .delete 0, .reset]) :=
+  table_inv_shape_partial _
+
+/-- table_space_bounded — partial: histories without `InsertAt` occupy at most 64 slots per `Insert`.
+Full statement (false, see `renumber_alloc_witness`): the same bound for every history. -/
+theorem table_space_bounded_partial {α} (ops : List (Op α)) (h : ∀ op ∈ ops, Op.isInsertAt op = false) :
+    slots (applyAll (empty : Table α) ops) ≤ 64 * countInserts ops := by
+  have := space_applyAll ops empty h
+  simpa [slots, empty] using this
+
+example : ∀ op ∈ ([.insert 1, .delete 0, .insert 2, .reset] : List (Op Nat)), Op.isInsertAt op = false := by decide
+
+/-- `InsertAt` sizes the table by the key alone. -/
+theorem insertAt_slots {α} (t : Table α) (x : α) (k : Int) (hk : 0 ≤ k) (h : Shape t) :
+    slots (insertAt t x k).1 = max (slots t) (64 * (k.toNat / 64 + 1)) := slots_insertAt t x k hk h
+
+/-- F16: one `InsertAt` (fd_renumber to 2^31-1) on an empty table occupies 2^31 item slots (16 GiB of pointers). -/
+theorem renumber_alloc_witness {α} (x : α) : slots (insertAt (empty : Table α) x 2147483647).1 = 2147483648 := by
+  rw [slots_insertAt _ _ _ (by decide) shape_empty]
+  simp [slots, empty]
+
 end Wz.C15
